@@ -880,16 +880,20 @@ def part_singlephase(ctx):
 RTOL = 1e-8          # fresh vs warmed results agree to ~1e-9 (solver tolerance); stale caches show at 1e-5 or more
 RTOL_DIFF = 1e-7     # diffusivities (and curvature factors / growth rates built on them) amplify the solver's convergence noise: up to 1.2e-8 observed
 RTOL_CURVDF = 1e-5   # 'curvature' driving force = (x - xM) d2G/dx2 (xP - xM): second derivatives, up to 9e-7 observed between cold and warm starts
-def rtol_of(q, method=None):
+RTOL_DILUTE = 5e-6   # Al-Mg-Si: the equilibrium matrix holds 1e-5..1e-4 solute; curvature factors there carry 5e-7 of solver noise
+def rtol_of(q, method=None, system=None):
     if q['q'] == 'DF' and method == 'curvature':
         return RTOL_CURVDF
+    if system == 'ALMGSI' and q['q'] in ('CURV', 'GROW', 'IMP'):
+        return RTOL_DILUTE
     return RTOL_DIFF if q['q'] in ('ID', 'TD', 'CURV', 'GROW', 'IMP') else RTOL      # all of these contain mobilities
 SYSTEMS = {
     'ALZR': {'binary': True, 'prec': ['AL3ZR'], 'matrix': ['FCC_A1'], 'methods': ['tangent', 'approximate', 'sampling', 'curvature'],
              'x': [(0.002, 0.02)], 'und': [(1e-4, 4e-4)], 'T': (500.0, 850.0), 'queries': ['DF', 'DF', 'IC', 'ID', 'TD'], 'batch': ['IC', 'IC', 'DF', 'ID', 'TD']},
     'NICRAL': {'binary': False, 'prec': ['FCC_L12'], 'matrix': ['DIS_FCC_A1'], 'methods': ['tangent', 'approximate', 'sampling', 'curvature'],
                'x': [(0.05, 0.1), (0.1, 0.12)], 'und': [(0.05, 0.1), (0.03, 0.085)], 'T': (950.0, 1150.0), 'queries': ['DF', 'DF', 'ID', 'TD', 'CURV', 'GROW', 'IMP', 'ICM'],
-               'batch': ['ICM', 'DF', 'ID', 'TD', 'GROW'], 'far': [(0.005, 0.03), (0.005, 0.04)]},
+               'batch': ['ICM', 'DF', 'ID', 'TD', 'GROW'], 'far': [(0.005, 0.03), (0.005, 0.04)],
+               'far_gamma': [(0.1, 0.2), (0.03, 0.08)], 'near_solvus': [(0.07, 0.13), (0.08, 0.105)], 'T_wide': (900.0, 1250.0)},
     'ALMGSI': {'binary': False, 'prec': ['MGSI_B_P', 'MG5SI6_B_DP', 'B_PRIME_L', 'U1_PHASE', 'U2_PHASE'], 'matrix': ['FCC_A1'],
                'methods': ['tangent', 'sampling'], 'x': [(0.003, 0.01), (0.003, 0.01)], 'und': [(1e-4, 6e-4), (1e-4, 6e-4)], 'T': (420.0, 520.0),
                'queries': ['DF', 'DF', 'DF', 'GROW', 'ID', 'TD'], 'batch': ['DF', 'GROW', 'ID', 'TD'], 'far': [(1e-5, 2e-4), (1e-5, 2e-4)]},
@@ -965,7 +969,7 @@ def do_query(th, q, rm=None):
         elif k == 'ICM':
             r = th.getInterfacialComposition(arr('x', q['x']), arr('T', q['T']), arr('g', q['g']), precPhase=ph)
         elif k == 'CURV':
-            r = th.curvatureFactor(arr('x', q['x']), arr('T', q['T']), precPhase=ph, removeCache=rm)
+            r = th.curvatureFactor(arr('x', q['x']), arr('T', q['T']), precPhase=ph, removeCache=rm, computeSearchDir=bool(q.get('csd', False)))
         elif k == 'GROW':
             r = th.getGrowthAndInterfacialComposition(arr('x', q['x']), arr('T', q['T']), q['dG'], arr('R', q['R']), arr('g', q['g']),
                                                       precPhase=ph, removeCache=rm)
@@ -1112,8 +1116,9 @@ def gen_curv_history(rng, system, quick):
         far = rng.random() < 0.35
         k = str(rng.choice(['CURV', 'GROW']))
         if far:
-            x = [float(rng.uniform(lo, hi)) for lo, hi in S['far']]
-            T = float(rng.uniform(*S['T']))
+            wide = 'far_gamma' in S and rng.random() < 0.5       # Cr-rich single-phase gamma, wider temperature window
+            x = [float(rng.uniform(lo, hi)) for lo, hi in (S['far_gamma'] if wide else S['far'])]
+            T = float(rng.uniform(*(S['T_wide'] if wide else S['T'])))
         elif pool and rng.random() < 0.4:
             x, T = pool[int(rng.integers(len(pool)))]
         else:
@@ -1124,12 +1129,22 @@ def gen_curv_history(rng, system, quick):
              'rm': bool(rng.random() < (0.85 if far else 0.4))}
         if far:
             q['far'] = True
+            if k == 'CURV' and rng.random() < 0.6:
+                q['csd'] = True          # the query works out its own search direction (nested driving-force query)
         if k == 'GROW':
             m = int(rng.choice([1, 3]))
             q['R'] = [float(v) for v in 10 ** rng.uniform(-9.5, -8, m)]
             q['g'] = [float(v) for v in rng.uniform(50, 2000, m)]
             q['dG'] = float(rng.uniform(200, 3000))
         ops.append(q)
+        if far and rng.random() < 0.8:
+            # what a removeCache=True curvature query leaves behind must not show in the next driving force
+            rr = rng.random()
+            if 'near_solvus' in S and rr < 0.5:
+                xs_ = [float(rng.uniform(lo, hi)) for lo, hi in S['near_solvus']]; T_ = float(rng.uniform(1100.0, 1250.0))
+            else:
+                xs_ = [float(rng.uniform(lo, hi)) for lo, hi in (S['und'] if rr < 0.75 else S['x'])]; T_ = float(rng.uniform(*S['T']))
+            ops.append({'q': 'DF', 'x': xs_, 'T': T_, 'ph': q['ph'], 'rm': bool(rng.random() < 0.7)})
     return {'part': 'purity', 'system': system, 'method': 'tangent', 'history': ops}
 
 
@@ -1199,7 +1214,7 @@ def run_purity(case, ref=None, budget_fresh=0):
                 if skip[j]:
                     continue
                 part = [None if a is None else (np.array(a[j]) if (a.ndim >= 1 and a.shape[0] == n_) else a) for a in bres]
-                ok, w = same_result(part, [None if a is None else np.array(a) for a in want], rtol_of(bq, method), floors_of(bq))
+                ok, w = same_result(part, [None if a is None else np.array(a) for a in want], rtol_of(bq, method, system), floors_of(bq))
                 if not ok:
                     hits.append(('batch_is_pointwise', blabel,
                                  'entry %d of the batched call %d %r is %s, the single-point evaluation %r gives %s (relative difference %.3g)'
@@ -1235,7 +1250,7 @@ def run_purity(case, ref=None, budget_fresh=0):
                 break
             # removeCache=True asks for an answer that owes nothing to cached equilibria: far outside the two-phase region it
             # is None on an object without history and must be None here too (compared below; the history goes on)
-        ok, w = same_result(got, want, rtol_of(q, method), floors_of(q))
+        ok, w = same_result(got, want, rtol_of(q, method, system), floors_of(q))
         if ok:
             worst = max(worst, w)
         else:
@@ -1246,14 +1261,14 @@ def run_purity(case, ref=None, budget_fresh=0):
             budget_fresh -= 1
             fresh = therm(system, method, fresh=True)
             tf = do_query(fresh, q, rm=True)[0]
-            ok2, w2 = same_result(want, tf, rtol_of(q, method), floors_of(q))
+            ok2, w2 = same_result(want, tf, rtol_of(q, method, system), floors_of(q))
             if not ok2:
                 hits.append(('history_independent', 'clearCache ' + label,
                              'query %d %r: an object after clearCache() returns %s, a newly built object %s' % (i, q, short(want), short(tf)), i))
         # repeat the call: same answer
         try:
             again, _ = do_query(warm, q)
-            ok3, w3 = same_result(got, again, rtol_of(q, method), floors_of(q))
+            ok3, w3 = same_result(got, again, rtol_of(q, method, system), floors_of(q))
             if not ok3:
                 hits.append(('repeat_same', label, 'query %d %r returned %s and, repeated, %s' % (i, q, short(got), short(again)), i))
             else:
@@ -1281,13 +1296,41 @@ def run_purity(case, ref=None, budget_fresh=0):
             hits.append(('arguments_unchanged', '%s %s' % (k, name), 'batched %s changed its argument %s' % (k, name), len(case['history'])))
         for j, (q, got) in enumerate(lst):
             part = [None if a is None else a[j] for a in bres]
-            ok, w = same_result([None if a is None else np.array(a) for a in part], got, rtol_of(bq, method), floors_of(bq))
+            ok, w = same_result([None if a is None else np.array(a) for a in part], got, rtol_of(bq, method, system), floors_of(bq))
             if not ok:
                 hits.append(('batch_is_pointwise', k + (' ' + method if k == 'DF' else ''),
                              'point %d of the batched %s call %r returned %s, alone it returned %s' % (j, k, bq, short(part), short(got)), len(case['history'])))
                 break
             worst = max(worst, w)
-    return hits, {'queries': nq, 'worst': worst, 'out_of_domain': ood}
+    return classify_start_dependence(case, hits), {'queries': nq, 'worst': worst, 'out_of_domain': ood}
+
+
+KF_START = 'DF tangent (Ni-Cr-Al gamma-prime, T > 1150 K or x_Cr > 0.1 in the kept-cache history: start-dependent parallel tangent)'
+
+
+def classify_start_dependence(case, hits):
+    """OPEN FINDING on the unchanged tree (known_findings.d/C09.json, C09-tangent-start-dependent): with cached composition sets kept
+    (removeCache=False, the default) the parallel-tangent solve of the ordered gamma-prime phase is started from the set of the previous
+    query and, outside the window T <= 1150 K, x_Cr <= 0.1, frequently ends in another solution.  Hits of exactly that kind get their
+    own class; everything else (removeCache=True queries, other systems / methods, histories inside the window) keeps the generic one."""
+    if case['system'] != 'NICRAL':
+        return hits
+    def wide(op):
+        if op.get('q') not in ('DF', 'batch') or (op.get('q') == 'batch' and op.get('kind') != 'DF'):
+            return False
+        Ts = np.ravel(np.asarray(op['T'], dtype=float))
+        xs = np.atleast_2d(np.asarray(op['x'], dtype=float))
+        return bool(np.any(Ts > 1150.0) or np.any(xs[:, 0] > 0.1))
+    out = []
+    H = case['history']
+    for clause, cls, msg, idx in hits:
+        if cls == 'DF tangent' and clause in ('history_independent', 'repeat_same', 'batch_is_pointwise'):
+            op = H[idx] if idx < len(H) else {'q': 'batch', 'kind': 'DF', 'rm': False}
+            kept = not op.get('rm', False)
+            if kept and any(wide(o) for o in H[:idx + 1]):
+                cls = KF_START
+        out.append((clause, cls, msg, idx))
+    return out
 
 
 def short(r):
@@ -1853,6 +1896,286 @@ def shrink_mut(c, name):
     return cur
 
 
+# ==========================================================================================
+# G. calling conventions: the same points passed as Python scalars, numpy scalars, 0-d arrays, lists, tuples, 1-d arrays, of float
+#    or integer dtype, with optional arguments omitted / by keyword / positional, must reach the single-point back ends as the same
+#    points with the same options, and return the same values
+CONV_REC = []
+
+
+def conv_object(system):
+    """object whose single-point back ends record the exact values and options they receive"""
+    key = ('conv', system)
+    if key in _MUT_OBJ:
+        return _MUT_OBJ[key]
+    th = therm(system, fresh=True)
+    n = th.numElements
+    fl = lambda v: [float(u) for u in np.ravel(np.asarray(v, dtype=float))]
+    def df(xi, Ti, precPhase, removeCache, lpsc):
+        CONV_REC.append(('_drivingForce', fl(xi), float(Ti), precPhase, bool(removeCache)))
+        return float(Ti) + 1000.0 * sum(fl(xi)), np.array(fl(xi)[:max(1, n - 1)]) * 0.5 + 0.25
+    def idf(xi, Ti, removeCache=True, phase=None):
+        CONV_REC.append(('_interdiffusivitySingle', fl(xi), float(Ti), phase, bool(removeCache)))
+        return np.array(float(Ti) * 1e-17 + sum(fl(xi)) * 1e-14)
+    def tdf(xi, Ti, removeCache=True, phase=None):
+        CONV_REC.append(('_tracerDiffusivitySingle', fl(xi), float(Ti), phase, bool(removeCache)))
+        return np.full(n, float(Ti) * 1e-17 + sum(fl(xi)) * 1e-14)
+    th._drivingForce = df
+    th._interdiffusivitySingle = idf
+    th._tracerDiffusivitySingle = tdf
+    if SYSTEMS[system]['binary']:
+        def ic(T, g, precPhase):
+            CONV_REC.append(('_interfacialComposition', float(T), fl(g), precPhase))
+            g = np.atleast_1d(np.asarray(g, dtype=float))
+            return np.squeeze(g * 1e-9 + float(T) * 1e-7), np.squeeze(g * 0 + 0.25)
+        th._interfacialComposition = ic
+    else:
+        def icm(x, T, g, precPhase):
+            CONV_REC.append(('_interfacialComposition', fl(x), float(T), float(g), precPhase))
+            return np.array([float(g) * 1e-9 + float(T) * 1e-7] * n), np.full(n, 0.25)
+        def eq(x, T, precPhase, cache=None):
+            CONV_REC.append(('_getCompositionSetsEq', fl(x), float(T), precPhase))
+            return np.ones(n), None, None            # matrix only: the two-phase search is entered
+        th._interfacialComposition = icm
+        th._getCompositionSetsEq = eq
+    _MUT_OBJ[key] = th
+    return th
+
+
+def conv_value(v, style):
+    """the value v (float, list of floats, list of lists) in one of the conventions"""
+    if isinstance(v, list) and v and isinstance(v[0], list):
+        return {'list': v, 'tuple': tuple(tuple(r) for r in v), 'arr': np.array(v, dtype=float),
+                'arr_f32': np.array(v, dtype=np.float32)}[style]
+    if isinstance(v, list):
+        return {'list': list(v), 'tuple': tuple(v), 'arr': np.array(v, dtype=float), 'arr_f32': np.array(v, dtype=np.float32),
+                'list_int': [int(u) for u in v], 'arr_int': np.array([int(u) for u in v], dtype=np.int64)}[style]
+    return {'pyfloat': float(v), 'npfloat': np.float64(v), '0d': np.array(float(v)), 'list1': [float(v)], 'tuple1': (float(v),),
+            'arr1': np.array([float(v)]), 'arr1_f32': np.array([v], dtype=np.float32),
+            'pyint': int(v), 'npint': np.int64(int(v)), '0d_int': np.array(int(v)), 'arr1_int': np.array([int(v)], dtype=np.int64),
+            'list1_int': [int(v)]}[style]
+
+
+def conv_styles(v, allow_wrap=True):
+    integral = lambda u: float(u) == int(u)
+    if isinstance(v, list) and v and isinstance(v[0], list):
+        return ['list', 'tuple', 'arr', 'arr_f32']
+    if isinstance(v, list):
+        st = ['list', 'tuple', 'arr', 'arr_f32']
+        if all(integral(u) for u in v):
+            st += ['list_int', 'arr_int']
+        return st
+    st = ['pyfloat', 'npfloat', '0d'] + (['list1', 'tuple1', 'arr1', 'arr1_f32'] if allow_wrap else [])
+    if integral(v):
+        st += ['pyint', 'npint', '0d_int'] + (['arr1_int', 'list1_int'] if allow_wrap else [])
+    return st
+
+
+def gen_conv_case(rng):
+    """a query, its points (values exactly representable in float32, temperatures not whole kelvins, Gibbs-Thomson energies
+    whole numbers) and its options"""
+    system = str(rng.choice(['ALZR', 'NICRAL']))
+    binary = SYSTEMS[system]['binary']
+    qs = ['getDrivingForce', 'getInterdiffusivity', 'getTracerDiffusivity', 'getInterfacialComposition'] if binary else \
+         ['getDrivingForce', 'getInterdiffusivity', 'getTracerDiffusivity', 'getInterfacialComposition_multi', 'curvatureFactor',
+          'impingementFactor', 'getGrowthAndInterfacialComposition']
+    q = str(rng.choice(qs))
+    xv = [0.0625, 0.09375, 0.125, 0.03125, 0.0078125]
+    Tv = [1073.5, 1050.25, 998.75, 1100.0, 900.0]
+    gv = [0.0, 50.0, 100.0, 200.0, 1000.0]
+    single = q in ('curvatureFactor', 'impingementFactor', 'getGrowthAndInterfacialComposition', 'getInterfacialComposition_multi')
+    N = 1 if single else int(rng.choice([1, 1, 2, 3]))
+    pt = lambda: float(rng.choice(xv)) if binary else [float(rng.choice(xv)), float(rng.choice(xv))]
+    c = {'part': 'conventions', 'system': system, 'query': q, 'rm': str(rng.choice(['default', 'True', 'False'])),
+         'ph': str(rng.choice(['default', 'explicit']))}
+    if q in ('getInterfacialComposition', 'getInterfacialComposition_multi'):
+        m = int(rng.choice([1, 1, 2, 3]))
+        c['g'] = [float(rng.choice(gv)) for _ in range(m)] if m > 1 else float(rng.choice(gv))
+        k = rng.random()
+        c['T'] = float(rng.choice(Tv)) if (k < 0.6 or m == 1) else ([float(rng.choice(Tv))] * m if k < 0.8 else [float(rng.choice(Tv)) for _ in range(m)])
+        if q == 'getInterfacialComposition_multi':
+            c['x'] = pt()
+    else:
+        pts = [pt() for _ in range(N)]
+        c['x'] = pts[0] if N == 1 else pts
+        c['T'] = float(rng.choice(Tv)) if (N == 1 or rng.random() < 0.5) else [float(rng.choice(Tv)) for _ in range(N)]
+        if q == 'getGrowthAndInterfacialComposition':
+            m = int(rng.choice([1, 3]))
+            c['R'] = [float(rng.choice([1.0, 2.0, 4.0])) * 2.0 ** -30 for _ in range(m)] if m > 1 else 2.0 ** -30
+            c['g'] = [float(rng.choice(gv)) for _ in range(m)] if m > 1 else float(rng.choice(gv))
+            c['dG'] = 900.0
+        if q == 'curvatureFactor':
+            c['csd'] = bool(rng.random() < 0.5)
+    return c
+
+
+def conv_call(c, styles, optstyle, record=True, th=None):
+    """perform the call of case c with the given convention per argument; returns (recorded back-end calls, output, error)"""
+    system, q = c['system'], c['query']
+    th = conv_object(system) if th is None else th
+    ph_def = th.phases[1] if len(th.phases) > 1 else None
+    a = {n: conv_value(c[n], styles[n]) for n in styles}
+    rm = {'default': None, 'True': True, 'False': False}[c['rm']]
+    # options: omitted / keyword / positional
+    if q in ('getDrivingForce', 'curvatureFactor', 'impingementFactor'):
+        pos = [a['x'], a['T']]; opt = [('precPhase', ph_def if c['ph'] == 'explicit' else None), ('removeCache', rm)]
+        if q == 'curvatureFactor':
+            opt += [('searchDir', None), ('computeSearchDir', True if c.get('csd') else None)]
+        if q == 'impingementFactor':
+            opt += [('searchDir', None)]
+    elif q in ('getInterdiffusivity', 'getTracerDiffusivity'):
+        pos = [a['x'], a['T']]; opt = [('removeCache', rm), ('phase', th.phases[0] if c['ph'] == 'explicit' else None)]
+    elif q == 'getInterfacialComposition':
+        pos = [a['T']]; opt = [('gExtra', a['g']), ('precPhase', ph_def if c['ph'] == 'explicit' else None)]
+    elif q == 'getInterfacialComposition_multi':
+        pos = [a['x'], a['T']]; opt = [('gExtra', a['g']), ('precPhase', ph_def if c['ph'] == 'explicit' else None)]
+    else:
+        pos = [a['x'], a['T'], c['dG'], a['R'], a['g']]; opt = [('precPhase', ph_def if c['ph'] == 'explicit' else None), ('removeCache', rm), ('searchDir', None)]
+    defaults = {'precPhase': None, 'removeCache': {'getDrivingForce': False, 'curvatureFactor': False, 'impingementFactor': False,
+                                                   'getGrowthAndInterfacialComposition': False}.get(q, True),
+                'phase': None, 'searchDir': None, 'computeSearchDir': False, 'gExtra': 0}
+    args, kwargs = list(pos), {}
+    if optstyle == 'positional':
+        vals = [(defaults[n] if v is None else v) for n, v in opt]
+        # trailing options that are at their default may be left out
+        args += vals
+    elif optstyle == 'keyword':
+        kwargs = {n: (defaults[n] if v is None else v) for n, v in opt}
+    else:   # omitted where the default is meant, keyword otherwise
+        kwargs = {n: v for n, v in opt if v is not None and not (n == 'gExtra' and np.ndim(v) == 0 and float(v) == 0 and optstyle == 'omitted0')}
+        if optstyle == 'omitted0':
+            kwargs = {n: v for n, v in kwargs.items() if not (n == 'gExtra' and np.size(v) == 1 and float(np.ravel(v)[0]) == 0)}
+    name = 'getInterfacialComposition' if q == 'getInterfacialComposition_multi' else q
+    del CONV_REC[:]
+    err, out = None, None
+    try:
+        with quiet():
+            r = getattr(th, name)(*args, **kwargs)
+        out = norm_result(r)
+    except Exception as ex:
+        err = '%s: %s' % (type(ex).__name__, str(ex)[:150])
+    return list(CONV_REC), out, err
+
+
+def conv_render(c, styles, optstyle):
+    return '%s[%s](%s; options %s, removeCache=%s, phase %s%s)' % (c['query'], c['system'], ', '.join('%s=%r as %s' % (n, c[n], styles[n]) for n in styles),
+                                                              optstyle, c['rm'], c['ph'], ', computeSearchDir=True' if c.get('csd') else '')
+
+
+def conv_compare(c, ref, got):
+    """ref / got = (recorded calls, output, error); returns a message or None"""
+    if (ref[2] is None) != (got[2] is None):
+        return 'one convention raises (%s), the other does not (%s)' % (got[2], ref[2])
+    if ref[2] is not None:
+        return None
+    if ref[0] != got[0]:
+        k = next((i for i, (u, v) in enumerate(zip(ref[0], got[0])) if u != v), min(len(ref[0]), len(got[0])))
+        return 'back-end call %d is %r, with the reference convention it is %r' % (k, got[0][k] if k < len(got[0]) else None, ref[0][k] if k < len(ref[0]) else None)
+    ok, w = same_result(got[1], ref[1], 1e-12)
+    if not ok:
+        return 'returned %s, with the reference convention %s' % (short(got[1]), short(ref[1]))
+    return None
+
+
+def part_conventions(ctx):
+    rng = ctx.rng
+    n = 80 if ctx.quick else 800
+    cases = corpus_cases('conventions') + [gen_conv_case(rng) for _ in range(n)]
+    seen = set()
+    ncalls = 0
+    argnames = lambda c: [k for k in ('x', 'T', 'g', 'R') if k in c]
+    for c in cases:
+        names = argnames(c)
+        single_T = c['query'] in ('getGrowthAndInterfacialComposition',)
+        ref_styles = {k: ('arr' if isinstance(c[k], list) else 'pyfloat') for k in names}
+        ref = conv_call(c, ref_styles, 'keyword')
+        ncalls += 1
+        ctx.count({'conv': c}, True)
+        ctx.hist('conventions_query', c['query'])
+        # (1) removeCache given by the caller must reach every nested single-point query; precipitate / matrix phase too
+        for rm_opt in ('default', 'True', 'False'):
+          for csd_opt in ((False, True) if c['query'] == 'curvatureFactor' else (c.get('csd', False),)):
+            c2 = dict(c, rm=rm_opt)
+            if c['query'] == 'curvatureFactor':
+                c2['csd'] = csd_opt
+            ref2 = conv_call(c2, ref_styles, str(rng.choice(['keyword', 'positional', 'omitted'])))
+            ncalls += 1
+            want_rm = {'default': {'getDrivingForce': False, 'curvatureFactor': False, 'impingementFactor': False,
+                                   'getGrowthAndInterfacialComposition': False}.get(c['query'], True), 'True': True, 'False': False}[rm_opt]
+            if ref2[2] is not None:
+                continue
+            for k, call in enumerate(ref2[0]):
+                if call[0] in ('_drivingForce', '_interdiffusivitySingle', '_tracerDiffusivitySingle') and call[4] != want_rm:
+                    cls = '%s removeCache not forwarded' % c['query']
+                    if cls not in seen:
+                        seen.add(cls)
+                        msg = ('%s was called with removeCache=%s but its nested query %s ran with removeCache=%s: %s'
+                               % (c['query'], want_rm, call[0], call[4], conv_render(c2, ref_styles, 'keyword')))
+                        ctx.violation('cache_discarded', {'site': SITE_TH, 'cls': cls},
+                                      {'kind': 'input', 'part': 'conventions', 'input': dict(c2, styles=ref_styles, optstyle='keyword'), 'observed': msg}, msg)
+        # (2) every other convention must do the same
+        for trial in range(6 if ctx.quick else 10):
+            styles = {}
+            for k in names:
+                st = conv_styles(c[k], allow_wrap=not (single_T and k == 'T'))
+                styles[k] = str(rng.choice(st))
+            optstyle = str(rng.choice(['keyword', 'positional', 'omitted', 'omitted0']))
+            got = conv_call(c, styles, optstyle)
+            ncalls += 1
+            for k in names:
+                ctx.hist('conventions_style', styles[k])
+            ctx.hist('conventions_options', optstyle)
+            msg = conv_compare(c, ref, got)
+            if msg:
+                bad = [k for k in names if styles[k] != ref_styles[k]]
+                # which argument's convention matters? try them one at a time
+                culprit = None
+                for k in bad:
+                    st1 = dict(ref_styles); st1[k] = styles[k]
+                    if conv_compare(c, ref, conv_call(c, st1, 'keyword')):
+                        culprit = (k, styles[k]); styles, optstyle = st1, 'keyword'
+                        break
+                cls = '%s %s' % (c['query'], ('%s of %s' % (culprit[0], 'integer dtype' if 'int' in culprit[1] else 'float32' if 'f32' in culprit[1] else 'another container type'))
+                                 if culprit else 'options ' + optstyle)
+                if cls in seen:
+                    continue
+                seen.add(cls)
+                full = '%s: %s' % (conv_render(c, styles, optstyle), conv_compare(c, ref, conv_call(c, styles, optstyle)) or msg)
+                ctx.violation('batch_is_pointwise', {'site': SITE_TH, 'cls': 'convention: ' + cls},
+                              {'kind': 'input', 'part': 'conventions', 'input': dict(c, styles=styles, optstyle=optstyle), 'observed': full,
+                               'oracle': 'the same points and options in another calling convention (reference: float64 arrays / Python floats, options by keyword)'},
+                              'the answer depends on how the arguments are passed: ' + full)
+    ctx.notes['conventions_cases'] = len(cases)
+    ctx.notes['conventions_calls'] = ncalls
+    # (3) the same with real pycalphad, a few calls: integer / list / omitted conventions against float arrays
+    real = [('NICRAL', 'getInterfacialComposition_multi', {'x': [0.08, 0.1], 'T': 1073.65, 'g': [50.0, 100.0, 200.0]}, {'x': 'list', 'T': 'pyfloat', 'g': 'list_int'}),
+            ('NICRAL', 'getInterfacialComposition_multi', {'x': [0.08, 0.1], 'T': 1073.65, 'g': 0.0}, {'x': 'arr', 'T': '0d', 'g': 'pyint'}),
+            ('ALZR', 'getInterfacialComposition', {'T': 700.35, 'g': [1000.0, 5000.0]}, {'T': 'npfloat', 'g': 'arr_int'}),
+            ('ALZR', 'getDrivingForce', {'x': [0.004, 0.008], 'T': [673.15, 700.65]}, {'x': 'tuple', 'T': 'list'}),
+            ('NICRAL', 'getDrivingForce', {'x': [0.08, 0.1], 'T': 1073.65}, {'x': 'tuple', 'T': 'arr1'}),
+            ('NICRAL', 'getInterdiffusivity', {'x': [[0.08, 0.1], [0.085, 0.1]], 'T': [1073.65, 1078.15]}, {'x': 'list', 'T': 'tuple'})]
+    if not ctx.quick:
+        real = real * 1
+    for system, q, vals, styles in real:
+        c = dict(vals, part='conventions', system=system, query=q, rm='default', ph='default', real=True)
+        th = therm(system, fresh=True)
+        names = argnames(c)
+        ref_styles = {k: ('arr' if isinstance(c[k], list) else 'pyfloat') for k in names}
+        ref = conv_call(c, ref_styles, 'keyword', th=th)
+        th.clearCache()
+        got = conv_call(c, styles, 'omitted0', th=th)
+        ref, got = ([], ref[1], ref[2]), ([], got[1], got[2])
+        if ref[2] is None and got[2] is None:
+            ok, w = same_result(got[1], ref[1], 1e-7)
+            if not ok and ('real ' + q) not in seen:
+                seen.add('real ' + q)
+                full = '%s returned %s, with float arrays %s' % (conv_render(c, styles, 'omitted0'), short(got[1]), short(ref[1]))
+                ctx.violation('batch_is_pointwise', {'site': SITE_TH, 'cls': 'convention (pycalphad): ' + q},
+                              {'kind': 'input', 'part': 'conventions', 'input': dict(c, styles=styles, optstyle='omitted0'), 'observed': full},
+                              'the answer depends on how the arguments are passed: ' + full)
+        ctx.count({'convreal': [system, q]}, True)
+
+
 def coqchk(ctx):
     """thorough tier: independent re-check of the compiled property file and its whole closure"""
     import subprocess, re
@@ -1906,6 +2229,9 @@ def run(ctx):
     part_singlephase(ctx)
     ctx.notes['time_singlephase_s'] = round(time.time() - t0, 1)
     t0 = time.time()
+    part_conventions(ctx)
+    ctx.notes['time_conventions_s'] = round(time.time() - t0, 1)
+    t0 = time.time()
     part_nonmutation(ctx)
     ctx.notes['time_nonmutation_s'] = round(time.time() - t0, 1)
     t0 = time.time()
@@ -1958,6 +2284,24 @@ def replay(ctx, obj):
             print('replay:', h[:3])
         print('replay: %d oracle violations on this history (%d queries)' % (len(hits), st['queries']))
         return 1 if hits else 0
+    if part == 'conventions':
+        c = obj['input']
+        th = therm(c['system'], fresh=True) if c.get('real') else None
+        names = [k for k in ('x', 'T', 'g', 'R') if k in c]
+        ref_styles = {k: ('arr' if isinstance(c[k], list) else 'pyfloat') for k in names}
+        ref = conv_call(c, ref_styles, 'keyword', th=th)
+        if th is not None:
+            th.clearCache()
+        got = conv_call(c, c['styles'], c['optstyle'], th=th)
+        if th is not None:
+            ref, got = ([], ref[1], ref[2]), ([], got[1], got[2])
+        msg = conv_compare(c, ref, got)
+        print('replay: %s -> %s' % (conv_render(c, c['styles'], c['optstyle']), msg or 'same as the reference convention'))
+        want = {'default': None, 'True': True, 'False': False}[c['rm']]
+        lost = [call for call in got[0] if call[0] in ('_drivingForce', '_interdiffusivitySingle', '_tracerDiffusivitySingle') and want is not None and call[4] != want]
+        for call in lost:
+            print('replay: nested query %s ran with removeCache=%s' % (call[0], call[4]))
+        return 1 if (msg or lost) else 0
     if part == 'mutation':
         c = obj['input']
         changed, err = mut_call(c['system'], c['query'], c['args'], recorders=not c.get('real'))
